@@ -52,6 +52,8 @@ func pipeOpts(mode string) gen.Opts {
 		return gen.Opts{MaxObjs: 6, MaxEdges: 4, Tricky: true, Containers: true, Styles: true, Classes: true, Boards: true, Markdown: true, Direction: true, Grid: true, Sequence: true, Near: true, Sizes: true}
 	case "layout":
 		return gen.Opts{MaxObjs: 7, MaxEdges: 5, Tricky: false, Containers: true, Styles: true, Sizes: true, AllShapes: true, Direction: true, Grid: true, Sequence: true, Near: true, Icons: true, LabelPos: true, CrossEdges: true}
+	case "nested-elk": // deep container nesting with label positions, always laid out with ELK
+		return gen.Opts{MaxObjs: 8, MaxEdges: 3, Containers: true, DeepNest: true, LabelPos: true, Sizes: true}
 	case "layout-tricky":
 		return gen.Opts{MaxObjs: 5, MaxEdges: 3, Tricky: true, Containers: true, Sizes: true, Direction: true, Markdown: true}
 	case "grid":
@@ -293,6 +295,9 @@ func drivePipe(c *Ctx) error {
 				eng := engines[i%len(engines)]
 				if len(engines) > 1 && eng == "elk" && i%4 != 1 {
 					eng = "dagre" // ELK is ~8x slower: every 4th diagram
+				}
+				if strings.HasSuffix(m, "-elk") {
+					eng = "elk"
 				}
 				inputs = append(inputs, pipeInput{Seed: int64(i) + 1, Mode: m, Engine: eng})
 			}
